@@ -221,7 +221,7 @@ func TestFaultSequences(t *testing.T) {
 	}
 	defer os.RemoveAll(dir)
 	scaled(float64(ev.EnvInt("C05_SEQ_SCALE", 5, 6)), 4, func() {
-		over := localBudget("SEQ", 15, 150)
+		over := localBudget("SEQ", 10, 100)
 		ev.Check(t, "TestFaultSequences", func(rt *rapid.T) {
 			if over() {
 				return
